@@ -810,7 +810,7 @@ def replay(ctx, path):
     if not ops:
         print("replay names a broken obligation only:", r.get("broken"))
         return 2
-    a = vlib.run_one(hcmd, ops)
+    a, ops = vlib.run_replay_conc(hcmd, ops)
     conf = [l for l in ops if not l.startswith("sched ") and l != "run"]
     sched = next((l[6:] for l in ops if l.startswith("sched ")), "random 1")
     b = vlib.run_one(dcmd, [l for l in ops if not l.startswith("fine ")])
